@@ -4,15 +4,17 @@ import PrefVerif.Lemmas.C19xRat
 import PrefVerif.Lemmas.C19xReal
 import PrefVerif.Lemmas.C19xColour
 import PrefVerif.Lemmas.C19xAxis
+import PrefVerif.Lemmas.C19fixMirror
 import PrefVerif.Lemmas.C19xMain
 /-!
 # C19x — where the model of `is_one_euclidean` is complete
 
 `C19.lp_model_sound` / `nogrey_partial` say what a feasible point of the LP handed to the solver means.
-This file states the converse for profiles stored from the leftmost to the rightmost voter: if the
-profile is 1-Euclidean with voter positions non-decreasing in storage order, the pre-check and the
-colouring stage succeed and the LP handed to the solver is feasible (so, with a solver that finds a
-feasible point whenever there is one, the function answers True).
+This file states the converse: if the profile is 1-Euclidean (pairwise distinct orders, stored in ANY
+order), the pre-check and the colouring stage succeed and the LP handed to the solver is feasible (so, with
+a solver that finds a feasible point whenever there is one, the function answers True).  The function takes
+the two extreme voters from the single-crossing arrangement found by the pre-check, which for a
+1-Euclidean profile with distinct orders lists the voters from left to right or from right to left.
 Property theorems only; helper lemmas live in `PrefVerif/Lemmas/C19x*.lean`.
 -/
 namespace PrefVerif.C19x
@@ -22,38 +24,46 @@ open PrefVerif PrefVerif.Euclid
 def Realised (alts : List Nat) (orders : List (List Nat)) (voters : List Rat) (x : Nat → Rat) : Prop :=
   Spec.Euclid.realises orders voters (alts.map (fun a => (a, x a))) = true
 
-/-- completeness of everything up to the LP, for a profile stored left to right -/
-theorem stored_left_to_right_complete_partial (alts : List Nat) (orders : List (List Nat))
+/-- completeness of everything up to the LP -/
+theorem complete_partial (alts : List Nat) (orders : List (List Nat))
     (halts : alts.Pairwise (· < ·)) (hord : ∀ o ∈ orders, o.Perm alts) (hnd : orders.Nodup)
     (h2 : 2 ≤ orders.length) (voters : List Rat) (x : Nat → Rat)
-    (hreal : Realised alts orders voters x) (hmono : voters.Pairwise (· ≤ ·)) :
+    (hreal : Realised alts orders voters x) :
     ∃ l, lp alts orders = some l ∧ ∃ asg : Var → Rat, ∀ c ∈ l.constraints, satisfies asg c = true := by
   have halts' : alts.Nodup := halts.imp (fun h => Nat.ne_of_lt h)
-  obtain ⟨l, hlp, hsorted⟩ := reach_lp alts orders halts' hord hnd h2 voters x hreal hmono
+  obtain ⟨l, hlp, hsorted⟩ := reach_lp alts orders halts' hord hnd h2 voters x hreal
   obtain ⟨hcs, hperm, wf⟩ := C19.lp_wellFormed alts orders l halts' hord hlp
   obtain ⟨g, v1, vn, _, hcp, _, hpr, _⟩ := C19.lp_eq_some alts orders l hlp
   have hsub : ∀ a ∈ l.cplus, a ∈ alts := by
     rw [hcp]; intro a ha; exact (List.mem_filter.1 ha).1
-  have hr := realises_restrict alts orders voters x l.cplus l.axis hsub hperm hreal
-  rw [← hpr] at hr
-  obtain ⟨lam0, _, h⟩ := C19.lp_complete l.preferences l.axis voters x wf
-    (fun i j hij hj => List.pairwise_iff_getElem.1 hsorted i j (by omega) hj hij) hr
-  exact ⟨l, hlp, C19.scaled lam0 voters x, by rw [hcs]; exact h lam0 Rat.le_refl⟩
+  rcases hsorted with hsorted | hsorted
+  · -- the arrangement found by the pre-check runs from left to right: the embedding itself, scaled
+    have hr := realises_restrict alts orders voters x l.cplus l.axis hsub hperm hreal
+    rw [← hpr] at hr
+    obtain ⟨lam0, _, h⟩ := C19.lp_complete l.preferences l.axis voters x wf
+      (fun i j hij hj => List.pairwise_iff_getElem.1 hsorted i j (by omega) hj hij) hr
+    exact ⟨l, hlp, C19.scaled lam0 voters x, by rw [hcs]; exact h lam0 Rat.le_refl⟩
+  · -- it runs from right to left: the mirror image of the embedding, scaled
+    have hr := realises_restrict alts orders (voters.map (fun v => -v)) (fun a => -x a) l.cplus l.axis hsub hperm
+      (realises_mirror alts orders voters x hord hreal)
+    rw [← hpr] at hr
+    obtain ⟨lam0, _, h⟩ := C19.lp_complete l.preferences l.axis (voters.map (fun v => -v)) (fun a => -x a) wf
+      (fun i j hij hj => List.pairwise_iff_getElem.1 hsorted i j (by omega) hj hij) hr
+    exact ⟨l, hlp, C19.scaled lam0 (voters.map (fun v => -v)) (fun a => -x a), by rw [hcs]; exact h lam0 Rat.le_refl⟩
 
-/-- with no grey alternative this makes the model exact on such profiles: the LP is reached and feasible,
-and every feasible point is an embedding of the full profile -/
-theorem stored_left_to_right_nogrey_exact_partial (alts : List Nat) (orders : List (List Nat))
+/-- with no grey alternative this makes the model exact: the LP is reached and feasible, and every feasible
+point is an embedding of the full profile -/
+theorem nogrey_exact_partial (alts : List Nat) (orders : List (List Nat))
     (halts : alts.Pairwise (· < ·)) (hord : ∀ o ∈ orders, o.Perm alts) (hnd : orders.Nodup)
     (h2 : 2 ≤ orders.length) (hgrey : (stage alts orders).grey = [])
     (voters : List Rat) (x : Nat → Rat)
-    (hreal : Realised alts orders voters x) (hmono : voters.Pairwise (· ≤ ·)) :
+    (hreal : Realised alts orders voters x) :
     ∃ l, lp alts orders = some l ∧ l.axis.Perm alts ∧
       (∃ asg : Var → Rat, ∀ c ∈ l.constraints, satisfies asg c = true) ∧
       ∀ asg : Var → Rat, (∀ c ∈ l.constraints, satisfies asg c = true) →
         Spec.Euclid.realises orders (C19.voterPositions asg orders.length) (C19.altPositions asg l.axis) = true := by
   have halts' : alts.Nodup := halts.imp (fun h => Nat.ne_of_lt h)
-  obtain ⟨l, hlp, asg, hsat⟩ :=
-    stored_left_to_right_complete_partial alts orders halts hord hnd h2 voters x hreal hmono
+  obtain ⟨l, hlp, asg, hsat⟩ := complete_partial alts orders halts hord hnd h2 voters x hreal
   refine ⟨l, hlp, (C19.nogrey_partial alts orders l asg halts' hord hlp hgrey hsat).1, ⟨asg, hsat⟩,
     fun asg' hsat' => (C19.nogrey_partial alts orders l asg' halts' hord hlp hgrey hsat').2⟩
 
